@@ -190,8 +190,15 @@ def execute(case):
             nursery.cancel_scope.cancel()
 
     trio.run(main, clock=trio.testing.MockClock(autojump_threshold=0))
+    # several FactoryPools live in one process: the pools of the last few cases - with their
+    # released children - stay alive while the next ones run
+    KEEPALIVE.append((fp, dict(objs)))
+    del KEEPALIVE[:-3]
     init = [{"st": "hatch", "s": c["s"], "u": c["u"], "a": c["a"], "d": c["d"]} for c in case["init"]]
     return {"fdem": fdem, "init": init, "events": events}
+
+
+KEEPALIVE = []
 
 
 def feasible(case):
